@@ -11,7 +11,7 @@ sys.path.insert(0, V)
 os.environ["RPX_NO_INLINE"] = "1"
 from engine import facts
 from engine.mir import Program
-from engine.inline import fn_sig, fn_print
+from engine.inline import fn_sig, fn_print, fn_print_deep
 fns, adts, meta_adt = {}, {}, {}
 for cfg in ("default", "nodefault", "quic-only", "metrics-only"):
     fdir, meta = facts.produce(cfg)
@@ -19,8 +19,9 @@ for cfg in ("default", "nodefault", "quic-only", "metrics-only"):
     for k, f in prog.fns.items():
         if f.kind in ("Fn", "AssocFn"):
             # bodies differ between build configurations (feature-gated code): fingerprint and size are kept per configuration
-            e = fns.setdefault(k, {"file": f.file, "sig": fn_sig(f), "print": {}, "nblocks": {}})
+            e = fns.setdefault(k, {"file": f.file, "sig": fn_sig(f), "print": {}, "nblocks": {}, "deep": {}})
             e["print"][cfg] = fn_print(prog, f)
+            e["deep"][cfg] = fn_print_deep(prog, f)
             e["nblocks"][cfg] = len(prog.body_of(f).blocks)
     for c in ("redproxy_rs", "milu"):
         for a in prog.items[c]["adts"]:
